@@ -127,3 +127,69 @@ Theorem C06_satisfiable :
   prune_named [bs ".GIT"] true ex_tree = ex_tree.
 Proof. exact ex_tree_ok. Qed.
 Print Assumptions C06_satisfiable.
+
+(* ---------------------------------------------------------------------------
+   The literal iteration.  The code does not recurse: pass 1 is a LIFO stack
+   `to_visit` filling a path-keyed map and a `filtered` list, pass 2 a FIFO
+   queue building `traversal`, iterated in reverse with `del top_dir[path]`.
+   model/FromDiskIter.v transcribes these loops as they are written
+   ([from_disk_iter]: explicit stack and queue with fuel, update / delete at a
+   path in the partially built tree, KeyError and the assert as error values);
+   proofs/FromDiskIterProofs.v shows that this is what the recursive model
+   [from_disk] of the theorems above computes.  [lord] is the os.scandir
+   order of the literal model (on the entries on disk), [ord] the one of the
+   recursive model: any two permutations. *)
+From SWH.model Require Import FromDiskIter.
+From SWH.proofs Require Import FromDiskIterProofs.
+
+(* With fuel = the number of directories of the tree ([dir_count t], fixed
+   inside [from_disk_iter]) neither loop runs out of fuel, no lookup or
+   deletion by path fails (no KeyError, the assert holds): the iteration ends
+   normally or with the ValueError of a too long symbolic link.  Every
+   well-formed tree, filter, size limit and listing order. *)
+Theorem C06_iter_total : forall lord f limit,
+  (forall p cs, Permutation (lord p cs) cs) -> forall t, wf_fs t = true ->
+  from_disk_iter lord f limit t = ItSymlinkTooLarge \/ exists m, from_disk_iter lord f limit t = ItOk m.
+Proof. exact iter_total. Qed.
+Print Assumptions C06_iter_total.
+
+(* The iteration raises exactly when the recursive model raises, and
+   otherwise returns the tree of the recursive model up to the order of the
+   children inside each directory ([mtree_equiv]: a permutation at every
+   level). *)
+Theorem C06_iter_refines_recursive : forall lord f limit,
+  (forall p cs, Permutation (lord p cs) cs) -> forall ord t,
+  (forall p ks, Permutation (ord p ks) ks) -> wf_fs t = true ->
+  match from_disk ord f limit t with
+  | FdOk m => exists m', from_disk_iter lord f limit t = ItOk m' /\ mtree_equiv m m'
+  | FdSymlinkTooLarge => from_disk_iter lord f limit t = ItSymlinkTooLarge
+  end.
+Proof. exact iter_refines_equiv. Qed.
+Print Assumptions C06_iter_refines_recursive.
+
+(* Hence the same root id and the same id at every path, for every hash
+   function; the two results have the same set of paths (None on one side iff
+   None on the other).  So every theorem above about [from_disk] is a theorem
+   about the iteration. *)
+Theorem C06_iter_same_ids : forall lord f limit,
+  (forall p cs, Permutation (lord p cs) cs) -> forall (H : bytes -> bytes) ord t m m',
+  (forall p ks, Permutation (ord p ks) ks) -> wf_fs t = true ->
+  from_disk ord f limit t = FdOk m -> from_disk_iter lord f limit t = ItOk m' ->
+  mt_id H m = mt_id H m' /\
+  forall path, option_map (mt_id H) (mt_get path m) = option_map (mt_id H) (mt_get path m').
+Proof. exact iter_same_ids. Qed.
+Print Assumptions C06_iter_same_ids.
+
+(* Non-vacuity: on ex_tree with ignore_empty_directories (pass 1 filters
+   e/f, pass 2 deletes e) and the listing reversed, and with a name filter,
+   the iteration and the recursive model return the SAME tree - on these
+   examples even the order of the children agrees -; both raise with limit 3. *)
+Theorem C06_iter_satisfiable :
+  wf_fs ex_tree = true /\ (forall p cs, Permutation (lrev p cs) cs) /\
+  (exists m, from_disk_iter lrev FEmpty (Some 5) ex_tree = ItOk m /\ from_disk rev_ord FEmpty (Some 5) ex_tree = FdOk m /\
+             m <> MNode []) /\
+  (exists m, from_disk_iter lid (FNamed [bs ".GIT"] false) None ex_tree = ItOk m /\
+             from_disk id_ord (FNamed [bs ".GIT"] false) None ex_tree = FdOk m) /\
+  from_disk_iter lid FAll (Some 3) ex_tree = ItSymlinkTooLarge /\ from_disk id_ord FAll (Some 3) ex_tree = FdSymlinkTooLarge.
+Proof. exact iter_example. Qed.
+Print Assumptions C06_iter_satisfiable.
